@@ -354,23 +354,21 @@ def check_case(case, ctx):
                     continue      # call-site items for bindings of nested members are not definitions of the file
                 want.add(n)
                 # parents (module of a member, type of a binding) are included even if not in the graph
-                scope = n.split('#')[0]
-                if scope and scope != n:
-                    want.add(scope)
-                    if ignored.get(scope) and not mf['process_ignored']:
-                        optional.add(scope)    # whether an ignored parent is listed is not specified
-                if '%' in n:
-                    want.add(n.split('%')[0])
+                for par in _parents(n):
+                    want.add(par)
+                    if ignored.get(par) and not mf['process_ignored']:
+                        optional.add(par)    # whether an ignored parent is listed is not specified
             dup = sorted(n for n, k in Counter(got_items).items() if k > 1)
             if dup:
                 ctx.fail('C22:file-graph:definition-item-listed-twice', case, f'{c["item"].replace(root, "")}: {dup}')
             if set(got_items) - optional != want - optional:
                 missing = want - optional - set(got_items)
-                if not set(got_items) - want and missing and all(
-                        ignored.get(n.split('#')[0]) and not mf['process_ignored'] for n in missing):
-                    # one root cause (listed): Scheduler._get_definition_items drops the definitions of a module
-                    # whose own ModuleItem is ignored, also those that are in the graph and not ignored
-                    ctx.fail('C22:file-graph:items-of-ignored-module-dropped', case,
+                if not set(got_items) - want and missing and not mf['process_ignored'] and all(
+                        any(ignored.get(par) for par in _parents(n)) for n in missing):
+                    # one root cause (listed): Scheduler._get_definition_items drops the definitions of an ignored
+                    # parent (members of an ignored module, bindings of an ignored type) together with the parent,
+                    # also those that are in the graph and not ignored
+                    ctx.fail('C22:file-graph:items-of-ignored-parent-dropped', case,
                              f'{c["item"].replace(root, "")}: items {sorted(set(got_items))} expected {sorted(want)}')
                     # (an empty list makes Transformation.apply_file recurse into every unit of the file with the
                     # file item; the recursion checks below would only repeat this finding)
@@ -410,6 +408,17 @@ def check_case(case, ctx):
             ctx.fail('C22:plan-regex-differs-from-sequence', case,
                      f'{sorted(set(names(plan_rx["calls"])) ^ set(names(seq["calls"])))[:6]}')
         ctx.count('plan-with-regex-frontend-compared')
+
+
+def _parents(n):
+    """definition parents of an item name: module of a member, type (and module) of a binding"""
+    scope, _, local = n.partition('#')
+    out = []
+    if local and '%' in local:
+        out.append(f'{scope}#{local.split("%")[0]}')
+    if local and scope:
+        out.append(scope)
+    return out
 
 
 def _descendants(n, edges):
